@@ -1670,6 +1670,80 @@ def cost(p):
     return 1 << 30          # seq / alias programs: a work chunk each
 
 
+# ---------------------------------------------------------------------------
+# presence callbacks that do not return a bool
+
+PRES_MENU = [True, False, 1, 0, None, "", "x", 0.0, [], (0,)]
+PRES_KINDS = ("U8", "U16BE", "I16LE", "Buf2")
+
+
+def presence_case(kind, g, oval, t, check_len):
+    """Envelope(g: Uint8, o: <kind> with get_pres = PRES_MENU[g], t: Uint8).  The declared type of get_pres is
+    Callable[[dict], bool]; whatever a definition's callback returns, the encoder and the decoder must read it the same
+    way: the encoding is the reference encoding with or without the optional field, decoding it raises nothing,
+    consumes all of it and returns the optional value iff the encoder emitted it.  -> None | message"""
+    C = env()["codec"]
+    mk = {"U8": lambda: C.Uint("o"), "U16BE": lambda: C.Uint16BE("o"), "I16LE": lambda: C.Int16LE("o"),
+          "Buf2": lambda: C.Buf("o", len=2)}[kind]
+    o = mk()
+    o.get_pres = lambda v: PRES_MENU[v["g"]]
+    E = type("PresEnvelope", (C.Envelope,), {"STRUCT": (C.Uint("g"), o, C.Uint("t"))})
+    if kind == "U8":
+        ob = bytes([oval])
+    elif kind == "U16BE":
+        ob = bytes([oval >> 8, oval & 0xff])
+    elif kind == "I16LE":
+        u = oval & 0xffff
+        ob = bytes([u & 0xff, u >> 8])
+    else:
+        ob = bytes(oval)
+        oval = bytes(oval)
+    what = "Envelope(Uint8 g, %s o present-if %r, Uint8 t) g=%d o=%r t=%d check_len=%s" % (kind, PRES_MENU[g], g, oval, t, check_len)
+    e = E(check_len=check_len)
+    e["g"], e["o"], e["t"] = g, oval, t
+    try:
+        enc = e.to_bytes()
+    except Exception as ex:            # noqa
+        return "%s: to_bytes raises %s: %s" % (what, type(ex).__name__, root_cause(ex))
+    with_o, without_o = bytes([g]) + ob + bytes([t]), bytes([g, t])
+    if enc not in (with_o, without_o):
+        return "%s: encoded as %s, neither %s (field present) nor %s (absent)" % (what, enc.hex(), with_o.hex(), without_o.hex())
+    emitted = enc == with_o
+    d = E(check_len=check_len)
+    try:
+        n = d.from_bytes(enc)
+    except Exception as ex:            # noqa
+        return ("%s: the encoder %s the optional field (%s) but decoding that encoding raises %s: %s"
+                % (what, "emitted" if emitted else "omitted", enc.hex(), type(ex).__name__, root_cause(ex)))
+    want = {"g": g, "t": t}
+    if emitted:
+        want["o"] = oval
+    if n != len(enc) or dict(d.c) != want:
+        return ("%s: the encoder %s the optional field (%s); decoding consumed %d of %d octets and returned %r, expected %r"
+                % (what, "emitted" if emitted else "omitted", enc.hex(), n, len(enc), dict(d.c), want))
+    return None
+
+
+def presence_values(kind):
+    return {"U8": [0, 1, 0xA5, 255], "U16BE": [0, 1, 0xA5C3, 65535], "I16LE": [-32768, -1, 0, 0x5AC3, 32767],
+            "Buf2": [[0, 0], [0xA5, 0xC3], [255, 255]]}[kind]
+
+
+def presence_leg(ctx):
+    n = 0
+    for kind in PRES_KINDS:
+        for g in range(len(PRES_MENU)):
+            for oval in presence_values(kind):
+                for t in (0, 0xA5, 255):
+                    for cl in (True, False):
+                        n += 1
+                        msg = presence_case(kind, g, oval, t, cl)
+                        if msg:
+                            ctx.violation("C16:presence-result:%s:%s" % (kind, type(PRES_MENU[g]).__name__),
+                                          {"presence": [kind, g, oval, t, cl]}, msg)
+    return n
+
+
 def run(ctx):
     progs = all_programs(ctx.quick)
     shapes = set(shape_of(p[0]) for p in progs)
@@ -1688,6 +1762,7 @@ def run(ctx):
     for r in ctx.pmap(work, [(ch, ctx.quick) for ch in chunks], chunksize=1):
         ctx.merge(r)
     c = ctx.cov
+    c["presence_result_cases"] = presence_leg(ctx)
     c["shapes"] = len(shapes)
     c["distinct_nontrivial"] = c["assignments"] + c["error_cases"]
     c["work_chunks"] = len(chunks)
@@ -1726,6 +1801,12 @@ def run(ctx):
 
 
 def replay(ctx, case):
+    if case.get("presence"):
+        kind, g, oval, t, cl = case["presence"]
+        msg = presence_case(kind, int(g), oval, int(t), bool(cl))
+        if msg:
+            ctx.violation("C16:presence-result:%s:%s" % (kind, type(PRES_MENU[int(g)]).__name__), case, msg)
+        return
     prog = case["prog"]
     j = judge_prog(_listify(prog), int(case["size"]), int(case.get("ndiag", 5)))
     for v in j.out:
